@@ -20,7 +20,7 @@ CONSTANTS
   Points <- AllPoints
   SpanChoice <- NoSpanChoice
   SubsetCats = {0}
-  Ops = {"Subset"}
+  Ops = {"Subset", "QueryList"}
   Others <- OthersNone
   UpdateSeqids = {}
 INVARIANT TypeOK
